@@ -482,8 +482,11 @@ impl<K, V, A: Allocator> CaoHashMap<K, V, A> {
             pl = EntryPayload::Occupied(unsafe { &mut *self.values.as_ptr().add(i) });
         } else {
             // if it would need to grow on insert, then allocate the new buffer now
+            let mut i = i;
             if Self::needs_grow(self.count + 1, self.capacity) {
                 self.grow()?;
+                // the buckets have moved
+                i = self.find_ind(hash, &key);
             }
             unsafe {
                 pl = EntryPayload::Vacant {
